@@ -27,7 +27,7 @@ func valueDsKey(key string) ds.Key
   function
 
 func (v *ValueStore) Put(ctx context.Context, key string, rec *recpb.Record) error
-  props C05
+  props C05 C09
   requires [key-match] str(rec.Key) == key
   ghostvar $validated bool = false
   ghostvar $existing *recpb.Record = nil
@@ -65,7 +65,7 @@ func (v *ValueStore) existingForSelect(ctx context.Context, dskey ds.Key) (*recp
   ghost at before call(Unmarshal): $rec = unbox($arg1, *recpb.Record)
 
 func (v *ValueStore) discardIfUnchanged(ctx context.Context, key string, dskey ds.Key, seen []byte)
-  props C05
+  props C05 C09
   requires [key-of-dskey] dskey == valueDsKey(key)
   ghostvar $cur []byte = nil
   ghostvar $same bool = false
@@ -91,7 +91,7 @@ func (v *ValueStore) expired(rec *recpb.Record) bool
   ghost at call(Since): $age = $ret0
 
 func (v *ValueStore) Get(ctx context.Context, key string) (*recpb.Record, error)
-  props C05 C04
+  props C05 C04 C09
   ghostvar $exp bool = true
   modifies nothing
   ensures [key-match] imp(result0 != nil, str(result0.Key) == key && result1 == nil)
@@ -150,7 +150,7 @@ func writeProviderEntry(ctx context.Context, dstore ds.Datastore, k []byte, p pe
   ghost at before call(Put): assert($arg1 == ds.NewKey(mkProvKeyFor(k, p)))
 
 func (pm *ProviderManager) AddProvider(ctx context.Context, k []byte, provInfo peer.AddrInfo) error
-  props C07 C14
+  props C07 C14 C09
   ghostvar $now time.Time = any
   ghostvar $wrote bool = false
   ghostvar $werr error = nil
@@ -174,7 +174,7 @@ func (pm *ProviderManager) Close() error
   ghostvar $c14cancel bool = false
 
 func (pm *ProviderManager) GetProviders(ctx context.Context, k []byte) ([]peer.AddrInfo, error)
-  props C07 C14
+  props C07 C14 C09
   modifies *
   ghost at before call(getProviderSetForKey): assert(held(pm.mu) && !pm.stopped && $arg1 == k)
 
